@@ -153,13 +153,26 @@ impl ConfirmationActor {
     async fn broadcast_confirmed_from_database(
         &mut self,
         partition_id: PartitionId,
+        old_watermark: u64,
         watermark: u64,
     ) {
         let Some(highest_confirmed_seq) = watermark.checked_sub(1) else {
             return;
         };
-        let next_to_broadcast = self.next_broadcast_seq.entry(partition_id).or_insert(0);
+        // What was confirmed before this actor first saw the partition (before a restart)
+        // is history, not news.
+        let next_to_broadcast = self
+            .next_broadcast_seq
+            .entry(partition_id)
+            .or_insert(old_watermark);
         if *next_to_broadcast > highest_confirmed_seq {
+            return;
+        }
+        // Nobody is listening: a subscription reads what is already confirmed from the
+        // database when it starts, so keeping these events for a later broadcast would
+        // replay old events to subscriptions that start from the latest position.
+        if self.broadcast_tx.receiver_count() == 0 {
+            *next_to_broadcast = highest_confirmed_seq + 1;
             return;
         }
         let broadcast_from = *next_to_broadcast;
@@ -211,6 +224,12 @@ impl Message<UpdateConfirmationWithBroadcast> for ConfirmationActor {
         msg: UpdateConfirmationWithBroadcast,
         _ctx: &mut Context<Self, Self::Reply>,
     ) -> Self::Reply {
+        let old_watermark = self
+            .manager
+            .get_watermark(msg.partition_id)
+            .map(|w| w.get())
+            .unwrap_or(0);
+
         // Update confirmations
         let mut results = SmallVec::new();
         for version in &msg.versions {
@@ -227,13 +246,26 @@ impl Message<UpdateConfirmationWithBroadcast> for ConfirmationActor {
             .map(|w| w.get())
             .unwrap_or(0);
 
-        let next_to_broadcast = self.next_broadcast_seq.entry(msg.partition_id).or_insert(0);
+        // What was confirmed before this actor first saw the partition (before a restart)
+        // is history, not news.
+        let next_to_broadcast = self
+            .next_broadcast_seq
+            .entry(msg.partition_id)
+            .or_insert(old_watermark);
 
         if watermark == 0 {
             return Ok(results);
         }
 
         let highest_confirmed_seq = watermark - 1;
+
+        // Nobody is listening: a subscription reads what is already confirmed from the
+        // database when it starts, so keeping these events for a later broadcast would
+        // replay old events to subscriptions that start from the latest position.
+        if self.broadcast_tx.receiver_count() == 0 {
+            *next_to_broadcast = (*next_to_broadcast).max(highest_confirmed_seq + 1);
+            return Ok(results);
+        }
 
         if *next_to_broadcast <= highest_confirmed_seq {
             let broadcast_from = *next_to_broadcast;
@@ -419,7 +451,7 @@ impl Message<UpdateConfirmation> for ConfirmationActor {
             // confirmation after it stored the events), so read the newly confirmed events
             // back from the database; otherwise subscribers of this node only receive
             // them when some later write happens to trigger a broadcast.
-            self.broadcast_confirmed_from_database(msg.partition_id, new_watermark)
+            self.broadcast_confirmed_from_database(msg.partition_id, old_watermark, new_watermark)
                 .await;
         }
 
